@@ -12,7 +12,8 @@ from vlib.core import CorrResult, Violation
 ID = "C09"
 MANIFEST = {
     "technique": "Rocq proof over an exact-rational model of printing.py (the two rounding stages and floor(log10) are "
-                 "parameters: theorems hold for every rounding function within half a unit) + vm_compute correspondence of "
+                 "parameters: theorems hold for every rounding function within half a unit; the exponent / decimals / "
+                 "tolerance arithmetic is regenerated from the source text on every run) + vm_compute correspondence of "
                  "the parsed printed text against the model run with round-half-even (set of admissible outputs at float "
                  "near-ties) + independent exact-decimal oracle search",
     "level_text": "Machine-checked theorems (C09_auto_error, C09_value_mode, C09_zero_error, C09_zero_value, closed under the "
@@ -26,16 +27,18 @@ MANIFEST = {
                   "configuration and the carry / two-stage-rounding cases need a case analysis no sample covers.",
     "level_note": "Binary floating point is modelled, not verified: the model computes in exact rationals from the decimal "
                   "reading of the inputs; where a rounding argument is within 2^-47 relative of a tie the correspondence admits "
-                  "both roundings (counted as near_ties). Hand-written model (not translated); trusted: the parser of the "
+                  "both roundings (counted as near_ties). Control flow hand-modelled and tied by correspondence; the arithmetic "
+                  "expressions (back-off exponent, number of decimals, clamp, order_of tolerance) translated by tools/gens/printing.py; trusted: the parser of the "
                   "printed text in the harness, and the reading of '{:.Nf}'.format / round() as roundings to within half a unit.",
     "design_ref": "DESIGN.md section 4 C09",
 }
-GEN = []
+GEN = ["PrintingGen"]
 PROPS_FILE = "Props/C09.v"
 MODEL_TARGETS = ["Model/PrintingCases.v"]
 EXTRA_TARGETS = ["Model/PrintingCases.v"]
 TRUSTED = [
-    "Model/Printing.v: hand-written model of qexpy/utils/printing.py over exact rationals (tied by correspondence, not translated)",
+    "Model/Printing.v: hand-written model of the control flow of qexpy/utils/printing.py over exact rationals (tied by correspondence)",
+    "tools/gens/printing.py: fail-closed extraction of the integer/rational expressions of printing.py into Gen/PrintingGen.v",
     "tools/props/c09.py: parser of the printed text (regular expressions for 'V +/- E' and '(V +/- E) * 10^k', \\pm in LaTeX)",
     "reading of Python's round(x) and '{:.Nf}'.format(x) as functions that return a nearest integer / decimal (|r(x) - x| <= 1/2 unit)",
 ]
